@@ -24,4 +24,5 @@ void *_dbus_mem_pool_alloc (DBusMemPool *p)
   m->prev = 0; m->next = 0; m->data = 0; p->n++;
   return m;
 }
-dbus_bool_t _dbus_mem_pool_dealloc (DBusMemPool *p, void *e) { free (e); p->n--; return p->n == 0; }
+/* hand-built pre-state nodes may be freed before the pool was ever created (p == NULL) */
+dbus_bool_t _dbus_mem_pool_dealloc (DBusMemPool *p, void *e) { free (e); if (p) p->n--; return 0; }
